@@ -161,7 +161,8 @@ def run(ctx):
             ctx.mismatch('pipeline.linear', [m, n, order, list(map(str, cs)), str(x)], len(seq), len(model), 'number of first-stage candidates')
             continue
         r = LogRule(n=n, method=m, order=order)
-        p = r._parity(m, n - 1, r.method_order)
+        from harness.props.C06 import parity_of
+        p = parity_of(r, m, n - 1, r.method_order)
         w = r.rule(rho)
         cond = np.linalg.cond(LogRule._fd_matrix(rho, p, len(w)))
         if cond * EPS > 1e-3:
